@@ -37,8 +37,12 @@ def pool_operators():
 
 
 def pool_context():
-    vals = ['1', '2.5', '"s"', 'true', '()', '(1, 2)', '(1, 2, 3)']
+    vals = ['1', '2.5', '"s"', 'true', '()', '(1, 2)', '(1, 2, 3)', '0.0', '-0.0', '-1', '0', '(0.0/0.0)', 'false']
     out = []
+    for a in ['0.0', '-0.0']:
+        for op in ASSIGN[1:]:
+            for b in ['0.0', '-0.0', '-1', '1', '0']:
+                out.append(('eval', 'x = %s; x %s %s; (x, 1 / x)' % (a, op, b), []))
     for a in vals:
         for b in vals:
             out.append(('eval', 'x = %s; x = %s; x' % (a, b), []))
@@ -76,9 +80,25 @@ def pool_eval():
 
 def pool_interface():
     exprs = ['1', '1.5', '"s"', 'true', '()', '(1, 2)', 'a', 'f', 's', 'a = 3', 'f = 3', 'f = 2.5', 'a = 1.5; a = 3', 'f = 1', 's = 1', 'a = "x"', 'b = true; b = 1', 't = (1, 2); t = 1',
-             'missing', '1 / 0', '1 +', 'a + f', 'a + 1', 'f * 2', 'len(s)', 'a; f', 'a, f', '9007199254740993', 'x = 1.5; x = 3', 'x = 3; x = 1.5', '-a', '!b', 'if(true, 1, 2.5)', 'typeof(a)']
+             'missing', '1 / 0', '1 +', 'a + f', 'a + 1', 'f * 2', 'len(s)', 'a; f', 'a, f', '9007199254740993', 'x = 1.5; x = 3', 'x = 3; x = 1.5', '-a', '!b', 'if(true, 1, 2.5)', 'typeof(a)',
+             'z = 5; z == 5', 'z = true; z', 'z = 1; z', 'z = 1.5; z', 'z = "s"; z', 'z = (1, 2); z', 'z = 1;', 'z = 1; z + 0.5', 'a += 1; a', 'b &&= false; b', 's += "c"; s']
     binds = ['a=int:7', 'f=float:4612811918334230528', 's=str:6162', 'b=bool:1']
     return [('typed', e, binds) for e in exprs] + [('typed', e, []) for e in exprs]
+
+
+def pool_api():
+    """scripted HashMapContext sequences; steps are (op, arg)"""
+    evals = ['max(1, 3)', 'f(2)', 'x', 'len("ab")', 'x = 5', 'x = 2.5', 'typeof(x)', 'min(4, 2)', 'str::from(x)']
+    pre = [[('disable', '')], [('enable', '')], [('disable', ''), ('enable', '')], [('set', 'x=int:1')], [('deff', 'f')], [('deff', 'max')], [('deff', 'len'), ('disable', '')],
+           [('set', 'x=int:1'), ('deff', 'f'), ('disable', '')], [('set', 'x=float:4609434218613702656')], [('set', 'x=str:6162')], []]
+    mid = [[('clear', '')], [('clearv', '')], [('clearf', '')], [('save', ''), ('disable', ''), ('swap', '')], [('save', ''), ('set', 'x=int:9'), ('deff', 'f'), ('swap', '')],
+           [('disable', ''), ('save', ''), ('enable', ''), ('swap', '')], [('save', ''), ('clear', ''), ('swap', '')], [('eval', 'x = 7')], [('eval', 'x = "s"')], []]
+    out = []
+    for a in pre:
+        for b in mid:
+            for e in evals:
+                out.append(('api', a + b + [('state', ''), ('eval', e), ('evalimm', e)], []))
+    return out
 
 
 def pool_iter():
@@ -100,6 +120,14 @@ def pool_tree():
     malformed = ['+ 1 2', '1 + * 2 3', '1 + 4()', '-1()', '(4)()', '1+(4)()', 'min(1,2)()', '4(5)', '(1', '1)', '((1)', '1 2', '1 + ', '* 2', '(* 3 4)', '= 5', 'a b c',
                  '1, 2; 3', '1; 2, 3; 4', 'a, b; c, d', ';;', ',,', '(,)', '(;)', '1,;2', '-2^-3', '2^--3', '--2', '!-1', '-!true', 'a = b = 3', 'f g 2', '1 - -1', '-x^-n',
                  '1 * -2^-3', 'x = 1; x, 2; x + 1', '1,2;3,4;5,6', '(1,2;3)', '1, (2; 3), 4']
+    # every arrangement of up to five items from {operand, `,`, `;`} and a few with a parenthesised group
+    import itertools
+    for n in range(1, 6):
+        for combo in itertools.product(['1', ',', ';'], repeat=n):
+            malformed.append(' '.join(combo))
+    for combo in itertools.product(['1', ',', ';', '(', ')'], repeat=4):
+        if '(' in combo and ')' in combo:
+            malformed.append(' '.join(combo))
     out += [('tree', m, []) for m in malformed] + [('eval', m, ['a=int:1', 'b=int:2', 'c=int:3', 'x=int:2', 'n=int:3']) for m in malformed]
     return out
 
@@ -130,7 +158,7 @@ def pool_lexer():
 
 def pool_builtins():
     args = ['1', '-1', '2.5', 'true', '"aäb"', '()', '(1, 2)', '1, 2', '2.5, 1', '1, 2, 3', '(1, 2), 1', '(1, 2), (2, 3)', '(1, 2), (2, (1,))', '(1,2),(2,())', '"aäb", 1', '"aäb", 1, 2',
-            '"abc", 1, 3', '"abc", 3, 1', '"abc", -1', 'true, 1, 2', 'false, 1, 2', '1, 1, 2', '1e19, 2e19', '-1e19, -2e19', '9223372036854775807, 9.3e18', '(-9223372036854775807 - 1)',
+            '"abc", 1, 3', '"abc", 3, 1', '"foobar", 7, 7', '"", 1, 1', '"äb", 1, 1', '"abc", 3, 3', '"abc", 0, 0', '"abc", 4', '"abc", 3', '"äb", 1', '"äb", 0, 1', '"äb", 2, 1', '"abc", -1', 'true, 1, 2', 'false, 1, 2', '1, 1, 2', '1e19, 2e19', '-1e19, -2e19', '9223372036854775807, 9.3e18', '(-9223372036854775807 - 1)',
             '1, 64', '1, -1', '1, 63', '("foo", "bar"), ("bar", (1, 2, 3))', '(1, 2, 3), (3, ())']
     names = ['min', 'max', 'len', 'if', 'contains', 'contains_any', 'typeof', 'math::abs', 'str::substring', 'str::from', 'str::trim', 'str::to_uppercase', 'str::to_lowercase',
              'bitand', 'bitor', 'bitxor', 'bitnot', 'shl', 'shr', 'floor', 'round', 'ceil', 'math::pow', 'math::log', 'math::atan2', 'math::hypot', 'math::sqrt', 'math::ln',
@@ -144,6 +172,7 @@ def pool_functions():
 
 POOLS = [
     (('operator::eval', 'operator::eval_mut', 'value::', 'error::', 'vs::'), pool_operators),
+    (('context::',), pool_api),
     (('context::',), pool_context),
     (('interface::',), pool_interface),
     (('tree::iter', 'iter::'), pool_iter),
@@ -184,6 +213,18 @@ def build_base(scratch, build_replay):
     return exe
 
 
+def encode(kind, expr, binds, hx):
+    if kind == 'api':
+        return '\t'.join(['api'] + ['%s:%s' % (op, hx(arg)) for op, arg in expr])
+    return '\t'.join([kind, hx(expr)] + binds)
+
+
+def show(kind, expr):
+    if kind == 'api':
+        return ' ; '.join(op + (' ' + arg if arg else '') for op, arg in expr)
+    return expr
+
+
 def search(prop, failure, scratch, seed, run_lines, hx):
     ob = failure.get('obligation', '')
     if not ob.startswith('verus:'):
@@ -199,7 +240,7 @@ def search(prop, failure, scratch, seed, run_lines, hx):
     for mk in pools + rest:
         cases = mk()
         # function calls need a context function: the replay driver only binds variables, so `f`/`g` stay unknown
-        lines = ['\t'.join([kind, hx(expr)] + binds) for kind, expr, binds in cases]
+        lines = [encode(kind, expr, binds, hx) for kind, expr, binds in cases]
         cur = run_lines(scratch, lines)
         p = subprocess.run([base], input='\n'.join(lines) + '\n', capture_output=True, text=True, timeout=300)
         old = p.stdout.split('\n')[:len(lines)]
@@ -207,9 +248,9 @@ def search(prop, failure, scratch, seed, run_lines, hx):
             continue
         diffs = [i for i in range(min(len(cur), len(old))) if cur[i] != old[i]]
         if diffs:
-            i = min(diffs, key=lambda k: len(cases[k][1]))   # shortest differing input
+            i = min(diffs, key=lambda k: len(show(cases[k][0], cases[k][1])))   # shortest differing input
             kind, expr, binds = cases[i]
-            return {'kind': kind, 'input': '%s %r%s' % (kind, expr, (' with ' + ', '.join(binds)) if binds else ''), 'expr': expr, 'binds': binds,
+            return {'kind': kind, 'input': '%s %r%s' % (kind, show(kind, expr), (' with ' + ', '.join(binds)) if binds else ''), 'expr': expr, 'binds': binds,
                     'observed': cur[i], 'expected': 'behaviour of the committed tree (obligation discharged there): ' + old[i],
                     'differing_inputs_in_pool': len(diffs), 'pool': mk.__name__}
     return None
